@@ -59,6 +59,11 @@ def wellFormedName (s : List Nat) : Bool :=
   | [] => false
   | b :: _ => (charToAlphabetIndex b).isSome
 
+/-- Port of the parser's check of a DEFtype letter range `a-b` (`rusty_parser/src/core/def_type.rs::letter_range`:
+`l.to_ascii_uppercase() <= r.to_ascii_uppercase()`, otherwise the syntax error "Invalid letter range"):
+the two letters are compared without regard to case. -/
+def rangeAccepted (a b : Nat) : Bool := decide (upper a ≤ upper b)
+
 /-- `TypeResolverImpl.ranges`: 26 qualifiers. -/
 abbrev DefTable := List Q
 
@@ -388,21 +393,23 @@ def convDim (c : Ctx) (shared : Bool) (k : Key) (d : Decl) : Except LintErr Ctx 
   else if shared && c.inSub then .error .illegalInSubFunction
   else declare c k d shared
 
-/-- `ConvertibleIn<Position> for Parameter` with `validation::validate` (`CannotClashWithFunctions for Parameter`) -/
+/-- `CannotClashWithFunctions for Parameter`: a parameter may carry the name of a function only as a compact of
+the function's own type ("for some reason you can have a FUNCTION Add(Add)") -/
+def paramClash (c : Ctx) (k : Key) (d : Decl) : Bool :=
+  match c.funcQ k with
+  | some fq =>
+    match d with
+    | .extended _ => true
+    | .compact q => decide (q ≠ fq)
+    | .bare => decide (defaultQ c.deft k ≠ fq)
+  | none => false
+
+/-- `ConvertibleIn<Position> for Parameter` with `validation::validate` -/
 def convParam (c : Ctx) (k : Key) (d : Decl) : Except LintErr Ctx :=
   if c.hasSub k then .error .duplicateDefinition
-  else
-    let clash : Bool :=
-      match c.funcQ k with
-      | some fq =>
-        match d with
-        | .extended _ => true
-        | .compact q => decide (q ≠ fq)
-        | .bare => decide (defaultQ c.deft k ≠ fq)
-      | none => false
-    if clash then .error .duplicateDefinition
-    else if (c.cur.getConst k).isSome then .error .duplicateDefinition
-    else declare c k d false
+  else if paramClash c k d then .error .duplicateDefinition
+  else if (c.cur.getConst k).isSome then .error .duplicateDefinition
+  else declare c k d false
 
 /-- `Variant::cast` of a literal's value to a declared suffix: string↔number is `TypeMismatch`,
 70000 to INTEGER is `Overflow`. -/
@@ -497,20 +504,21 @@ def convParams (c : Ctx) : List Param → Except LintErr (Ctx × List (Key × Q)
 /-- linted top-level item -/
 inductive RItem where
   | stmt (s : RStmt)
-  | sub (k : Key) (params : List (Key × Q)) (body : List RStmt)
-  | func (k : Key) (q : Q) (params : List (Key × Q)) (body : List RStmt)
+  /-- `locals`: the name table of the subprogram's scope when it is left (`Names.data[scope]`) -/
+  | sub (k : Key) (params : List (Key × Q)) (body : List RStmt) (locals : Table)
+  | func (k : Key) (q : Q) (params : List (Key × Q)) (body : List RStmt) (locals : Table)
   deriving Repr, Inhabited
 
 /-- `on_sub_implementation` / `on_function_implementation`: push scope, parameters, body, pop. -/
 def convSubprogram (c : Ctx) (sc : Scope) (params : List Param) (body : List Stmt) :
-    Except LintErr (Ctx × List (Key × Q) × List RStmt) :=
+    Except LintErr (Ctx × List (Key × Q) × List RStmt × Table) :=
   let c1 : Ctx := { c with scope := sc, locals := [] }
   match convParams c1 params with
   | .error e => .error e
   | .ok (c2, ps) =>
     match convStmts c2 body with
     | .error e => .error e
-    | .ok (c3, rs) => .ok ({ c3 with scope := Scope.global, locals := [] }, ps, rs)
+    | .ok (c3, rs) => .ok ({ c3 with scope := Scope.global, locals := [] }, ps, rs, c3.locals)
 
 /-- `ConvertibleIn<Position> for GlobalStatement` -/
 def convItem (c : Ctx) (it : Item) : Except LintErr (Ctx × List RItem) :=
@@ -520,12 +528,12 @@ def convItem (c : Ctx) (it : Item) : Except LintErr (Ctx × List RItem) :=
   | .sub name params body =>
     match convSubprogram c (.sub (fold name)) params body with
     | .error e => .error e
-    | .ok (c', ps, rs) => .ok (c', [RItem.sub (fold name) ps rs])
+    | .ok (c', ps, rs, loc) => .ok (c', [RItem.sub (fold name) ps rs loc])
   | .func n params body =>
     let q := n.sfx.getD (defaultQ c.deft (fold n.name))
     match convSubprogram c (.func (fold n.name) q) params body with
     | .error e => .error e
-    | .ok (c', ps, rs) => .ok (c', [RItem.func (fold n.name) q ps rs])
+    | .ok (c', ps, rs, loc) => .ok (c', [RItem.func (fold n.name) q ps rs loc])
 
 def convItems (c : Ctx) : List Item → Except LintErr (Ctx × List RItem)
   | [] => .ok (c, [])
@@ -611,8 +619,8 @@ def postSubStmt (subs : List (Key × List Q)) : RStmt → Except LintErr Unit
 def allStmts : List RItem → List RStmt
   | [] => []
   | .stmt s :: rest => s :: allStmts rest
-  | .sub _ _ body :: rest => body ++ allStmts rest
-  | .func _ _ _ body :: rest => body ++ allStmts rest
+  | .sub _ _ body _ :: rest => body ++ allStmts rest
+  | .func _ _ _ body _ :: rest => body ++ allStmts rest
 
 def firstErr (f : RStmt → Except LintErr Unit) : List RStmt → Except LintErr Unit
   | [] => .ok ()
@@ -622,7 +630,7 @@ def firstErr (f : RStmt → Except LintErr Unit) : List RStmt → Except LintErr
     | .ok () => firstErr f rest
 
 /-- Port of `core::lint`: pre-linter, converter, post-linter. -/
-def lint (s : Script) : Except LintErr (List RItem) :=
+def lint (s : Script) : Except LintErr (List RItem × Table) :=
   match preItems { deft := DefTable.init, funcs := [], subs := [], consts := [] } s with
   | .error e => .error e
   | .ok p =>
@@ -630,13 +638,54 @@ def lint (s : Script) : Except LintErr (List RItem) :=
                       scope := Scope.global }
     match convItems c0 s with
     | .error e => .error e
-    | .ok (_, items) =>
+    | .ok (cEnd, items) =>
       match firstErr (postFnStmt p.funcs) (allStmts items) with
       | .error e => .error e
       | .ok () =>
         match firstErr (postSubStmt p.subs) (allStmts items) with
         | .error e => .error e
-        | .ok () => .ok items
+        | .ok () => .ok (items, cEnd.globals)
+
+/-! ## what the instruction generator asks (`Names::get_resolved_variable_info`) -/
+
+/-- `NamesInner::get_variable_info_by_name` for a qualified name: the compact of that qualifier, else the extended
+variable of that bare name. Result: (qualifier, shared). -/
+def varInfoByName (t : Table) (k : Key) (q : Q) : Option (Q × Bool) :=
+  match t.getCompact k q with
+  | some s => some (q, s)
+  | none => t.getExtended k
+
+/-- Port of `Names::get_resolved_variable_info(scope, name)`: the scope's own table, else — inside a subprogram —
+the global table, where the variable must be SHARED.  `none` stands for the three `panic!`s. -/
+def resolvedInfo (loc glob : Table) (inSub : Bool) (k : Key) (q : Q) : Option (Q × Bool) :=
+  match varInfoByName loc k q with
+  | some i => some i
+  | none =>
+    if inSub then
+      match varInfoByName glob k q with
+      | some (x, true) => some (x, true)
+      | _ => none
+    else none
+
+/-- the variable a linted statement mentions (what `generate_path_instructions` looks up) -/
+def RStmt.varOcc : RStmt → Option (Key × Q)
+  | .assign k q _ _ => some (k, q)
+  | .print (.var k q _) => some (k, q)
+  | .printCall (.var k q _) _ => some (k, q)
+  | _ => none
+
+def stmtResolved (loc glob : Table) (inSub : Bool) (r : RStmt) : Bool :=
+  match r.varOcc with
+  | some (k, q) => (resolvedInfo loc glob inSub k q).isSome
+  | none => true
+
+/-- every variable occurrence of the linted program has lint-time info in the final tables -/
+def itemResolved (glob : Table) : RItem → Bool
+  | .stmt r => stmtResolved glob glob false r
+  | .sub _ _ body loc => body.all (stmtResolved loc glob true)
+  | .func _ _ _ body loc => body.all (stmtResolved loc glob true)
+
+def allResolved (items : List RItem) (glob : Table) : Bool := items.all (itemResolved glob)
 
 /-- the resolution of every assignment / PRINT occurrence in program order -/
 def traceOf : List RStmt → List Res
@@ -679,12 +728,12 @@ structure Mem where
 
 def findSub : List RItem → Key → Option (List (Key × Q) × List RStmt)
   | [], _ => none
-  | .sub k ps body :: rest, n => if k = n then some (ps, body) else findSub rest n
+  | .sub k ps body _ :: rest, n => if k = n then some (ps, body) else findSub rest n
   | _ :: rest, n => findSub rest n
 
 def findFunc : List RItem → Key → Option (Q × List (Key × Q) × List RStmt)
   | [], _ => none
-  | .func k q ps body :: rest, n => if k = n then some (q, ps, body) else findFunc rest n
+  | .func k q ps body _ :: rest, n => if k = n then some (q, ps, body) else findFunc rest n
   | _ :: rest, n => findFunc rest n
 
 /-- by-value parameter frame: the j-th parameter holds the j-th literal argument, cast to its qualifier -/
@@ -741,7 +790,8 @@ def mainStmts : List RItem → List RStmt
 (`none` when the run does not terminate within the fuel) -/
 inductive Outcome where
   | rejected (e : LintErr)
-  | accepted (trace : List Res) (out : Option (List Val))
+  /-- `resolved`: `allResolved` (the generator's look-ups are all defined) -/
+  | accepted (trace : List Res) (out : Option (List Val)) (resolved : Bool)
   deriving DecidableEq, Repr, Inhabited
 
 def runFuel : Nat := 256
@@ -749,8 +799,9 @@ def runFuel : Nat := 256
 def runScript (s : Script) : Outcome :=
   match lint s with
   | .error e => .rejected e
-  | .ok items =>
+  | .ok (items, glob) =>
     .accepted (traceOf (allStmts items))
       ((exec items runFuel (mainStmts items) true { global := [], locl := [], out := [] }).map (·.out))
+      (allResolved items glob)
 
 end RbModel.Names
